@@ -185,3 +185,24 @@ fn kv_nested_body(down: bool) {
 	kani::cover!(true, "w:reached");
 	std::mem::forget(fx);
 }
+
+// @h prop=C13 tier=quick kind=main timeout=900
+// @bounds delay line of 2 frames, feedback 0 dB, fully wet, 3 frames of symbolic small-integer input: superposition on exact integers - delay(x + y) == delay(x) + delay(y), delay(-x) == -delay(x)
+// @funcs Delay::process
+// @catches a non-linear or input-dependent term in the delay (clamp, offset, gating)
+#[kani::proof]
+#[kani::unwind(7)]
+fn c13_delay_obeys_superposition_on_integers() {
+	let i = KvInfo::new();
+	let info = i.info();
+	let x = [kv_small(), kv_small(), kv_small()];
+	let y = [kv_small(), kv_small(), kv_small()];
+	let neg: bool = kani::any();
+	let run = |v: [f32; 3]| { let mut fx = kv_delay(2, Decibels::IDENTITY, 1.0, 3); let mut b = [Frame::from_mono(v[0]), Frame::from_mono(v[1]), Frame::from_mono(v[2])]; fx.process(&mut b, 1.0, &info); std::mem::forget(fx); [b[0].left, b[1].left, b[2].left] };
+	let (rx, ry) = (run(x), run(y));
+	let z = if neg { [-x[0], -x[1], -x[2]] } else { [x[0] + y[0], x[1] + y[1], x[2] + y[2]] };
+	let rz = run(z);
+	let mut k = 0;
+	while k < 3 { if neg { assert!(rz[k] == -rx[k], "scaling"); } else { assert!(rz[k] == rx[k] + ry[k], "superposition"); } k += 1; }
+	kani::cover!(!neg && x[0] != 0.0 && y[0] != 0.0, "w:two-signals");
+}
